@@ -129,6 +129,15 @@ func (e *Engine) effective(c *Contract, tgt *funcTarget) *Contract {
 	return &m
 }
 
+// evalTypeExpr type-checks a type expression written in a contract.
+func (e *Engine) evalTypeExpr(pkg *packages.Package, pos token.Pos, x ast.Expr) types.Type {
+	info := &types.Info{Types: map[ast.Expr]types.TypeAndValue{}}
+	if err := types.CheckExpr(pkg.Fset, pkg.Types, pos, x, info); err != nil {
+		panic(unsupported("type expression %s: %v", exprText(x), err))
+	}
+	return info.Types[x].Type
+}
+
 func (e *Engine) ifaceMethod(ic *Contract) *types.Func {
 	pkg := e.pkgs[ic.Pkg]
 	if pkg == nil {
@@ -294,6 +303,41 @@ func (e *Engine) VerifyFunc(c *Contract) {
 	for _, r := range c.Requires {
 		sc := fc.specCtx(st, nil)
 		sc.pol = -1
+		// dyntype(param, T): bind the interface-typed parameter to a value of dynamic type T
+		if call, ok := r.Expr.(*ast.CallExpr); ok && exprString(call.Fun) == "dyntype" && len(call.Args) == 2 {
+			if id, ok := call.Args[0].(*ast.Ident); ok {
+				if obj, ok := st.names[id.Name]; ok {
+					t := e.evalTypeExpr(pkg, tgt.body.Lbrace+1, call.Args[1])
+					pv := e.freshValue(st, id.Name+".dyn", t, true)
+					if p, ok := pv.(*PtrV); ok {
+						p.Nil = False
+					}
+					st.vars[obj] = e.boxIface(st, pv, t)
+					continue
+				}
+			}
+		}
+		// "target(x) == y" on writer identities: bind (ghost state is keyed by identity).
+		// Under "implies(dyntype(..), ...)" the binding is unconditional: when the
+		// antecedent is false the payload object is hypothetical.
+		rexpr := r.Expr
+		if call, ok := rexpr.(*ast.CallExpr); ok && exprString(call.Fun) == "implies" && len(call.Args) == 2 {
+			if inner, ok := call.Args[1].(*ast.BinaryExpr); ok && inner.Op == token.EQL {
+				if c2, ok := inner.X.(*ast.CallExpr); ok && exprString(c2.Fun) == "target" {
+					rexpr = inner
+				}
+			}
+		}
+		if be, ok := rexpr.(*ast.BinaryExpr); ok && be.Op == token.EQL {
+			if call, ok := be.X.(*ast.CallExpr); ok && exprString(call.Fun) == "target" {
+				if lv, ok := sc.ghostLvalOf(be.X); ok {
+					if rv := sc.tryEval(be.Y); rv != nil {
+						lv.set(rv)
+						continue
+					}
+				}
+			}
+		}
 		// "param == <slice/map valued expr>": bind the parameter instead of a quantified equation
 		if be, ok := r.Expr.(*ast.BinaryExpr); ok && be.Op == token.EQL {
 			if id, ok := be.X.(*ast.Ident); ok {
@@ -361,6 +405,7 @@ func (fc *FnCtx) finish(st *State, rets []Value, where string, pos token.Pos) {
 	}
 	fc.applyUses(st, where)
 	fc.applyUses(st, "exit")
+	fc.e.addObl(&Obligation{Name: fmt.Sprintf("%s#cover.exit@%s", fc.name, where), Kind: "cover-exit", Func: fc.name, Hyps: st.Hyps(), Cover: true, Pos: fc.e.posStr(pos)})
 	for k, en := range fc.c.Ensures {
 		sc := fc.specCtx(st, scope)
 		sc.pol = 1
@@ -383,6 +428,18 @@ func (fc *FnCtx) frameCheck(st *State, where string, pos token.Pos) {
 	sc := fc.specCtx(fc.entry.Clone(), nil)
 	for _, m := range fc.c.Modifies {
 		if _, isGhost := sc.ghostLvalOf(m); isGhost {
+			continue
+		}
+		if call, ok := m.(*ast.CallExpr); ok && exprString(call.Fun) == "doc" {
+			// doc(w): for a runtime.Buffer the pending bytes / sticky error of its bufio.Writer may change
+			w := sc.tryEval(call.Args[0])
+			if w != nil {
+				if sv, _, ok := sc.runtimeBufferSym(w); ok {
+					if bwp, ok := sv.F["b"].(*PtrV); ok {
+						allowed[tgt{bwp.Obj, "*"}] = true
+					}
+				}
+			}
 			continue
 		}
 		root, field := modRootField(m)
